@@ -28,7 +28,7 @@ def probe_force_fd(inp: Dict[str, Any]) -> Dict[str, Any]:
     k = inp.get("target", 0)
     sp = esh.settings(method=inp["method"], eps=inp.get("eps", 1e-10), converger=inp.get("converger", [1]), sp2=inp.get("sp2"), uhf=inp.get("uhf", False),
                       analytical=inp.get("analytical"), excited=inp.get("excited"), active_state=inp.get("active_state", 0),
-                      **({"scf_backward": inp["scf_backward"]} if "scf_backward" in inp else {}))
+                      **({"scf_backward": inp["scf_backward"]} if "scf_backward" in inp else {}), **({"dispersion": True} if inp.get("dispersion") else {}))
     s, x, ch, mu = esh.batch(names, pad_to=inp.get("pad_to"), pad_coord=inp.get("pad_coord", 0.0))
     rng = np.random.default_rng(inp.get("seed", 0))
     z, x0 = esh.geom(names[k])
@@ -117,6 +117,10 @@ def gen_cases(ctx: Ctx):
         if i % 11 == 10 and c["analytical"] is None:
             c["sp2"] = [True, 1e-7]
         cases.append(c)
+    # optional Hamiltonian terms: the AM1 dispersion correction (pairs beyond its damping distance: a methane dimer 4.6 A apart)
+    cases.append({"names": ["ch4_dimer"], "method": "AM1", "dispersion": True, "stratum": "generic:", "seed": int(rng.integers(0, 10**6)), "cross": False, "tol": 4e-6})
+    if ctx.thorough:
+        cases.append({"names": ["ch4_dimer"], "method": "AM1", "dispersion": True, "analytical": [True], "stratum": "generic:", "seed": int(rng.integers(0, 10**6)), "cross": False})
     # open shells (UHF doublet / triplet), ions are in the pools
     for nm, m in ([("no", "AM1"), ("oh", "PM3"), ("o2", "MNDO")] if ctx.thorough else [("oh", "AM1")]):
         cases.append({"names": [nm], "method": m, "uhf": True, "stratum": "generic:", "seed": 7, "cross": False, "eps": 1e-9})
